@@ -35,8 +35,8 @@
 (define-fun spec!cmp3 ((a Str) (b Str)) (_ BitVec 64)
   (ite (< (str!cmp a b) 0) #xffffffffffffffff (ite (= (str!cmp a b) 0) #x0000000000000000 #x0000000000000001)))
 ; FmtV: fmt.Sprintf("%v", x). Assumed library contract: a string prints as itself.
-(declare-fun spec!FmtV (Any) Str)
-(assert (forall ((s Str)) (! (= (spec!FmtV (a!string s)) s) :pattern ((spec!FmtV (a!string s))))))
+(declare-fun spec!fmtOther (Any) Str)
+(define-fun spec!FmtV ((x Any)) Str (ite ((_ is a!string) x) (v!string x) (spec!fmtOther x)))
 ; CompareSpec: the order of the statement. Numbers by value, everything else by text.
 (define-fun spec!CompareSpec ((a Any) (b Any)) (_ BitVec 64)
   (ite (and (spec!numeric a) (spec!numeric b)) (spec!sgn3 (spec!val a) (spec!val b))
